@@ -1,6 +1,7 @@
 package main
 
 import (
+	"sort"
 	"os"
 	"fmt"
 	"go/ast"
@@ -127,6 +128,9 @@ func (fr *Frame) doCall0(ins ssa.Instruction, c *ssa.CallCommon, args []Val, rt 
 		fr.callMode = "extern"
 		return v, true
 	}
+	if q.eng.exemptLoops[fnKey(callee)] {
+		q.newLoopHelpers[fnKey(callee)] = true
+	}
 	ct := q.eng.contractFor(callee, q.opts)
 	if ct != nil && len(ct.Requires) == 0 && len(ct.Ensures) == 0 && fr.canInline(callee) {
 		ct = nil // a contract that only carries loop clauses (closures): the body is executed in place
@@ -135,6 +139,23 @@ func (fr *Frame) doCall0(ins ssa.Instruction, c *ssa.CallCommon, args []Val, rt 
 		// a small loop-free helper that merely falls under a default contract is seen through its body, which says
 		// more than the default contract does (e.g. a helper that tests the depth limit for its caller)
 		ct = nil
+	}
+	if q.rtLeaves != nil && ct != nil && loopFree(callee) && fr.canInline(callee) {
+		ct = nil // entry-point read tracking: see through small helpers (Reset and the like) so that their assignments count
+	}
+	if q.rtLeaves != nil && (ct != nil || !fr.canInline(callee)) {
+		// the callee is not executed in place: whatever it may read of the tracked object must have been assigned
+		var fams []string
+		for fam := range q.rtLeaves {
+			fams = append(fams, fam)
+		}
+		sort.Strings(fams)
+		for _, fam := range fams {
+			if q.eng.refAll[callee] || q.eng.refsets[callee][fam] {
+				lf := q.rtLeaves[fam]
+				fr.readCheck(fam, sAdd(q.rtBase, sInt(int64(lf.Off))), ins.Pos(), calleeName(callee))
+			}
+		}
 	}
 	if ct != nil {
 		fr.callMode = "modular"
@@ -1161,6 +1182,25 @@ func (ct *Contract) hasCost() bool {
 	return false
 }
 
+// hasCostClause: a cost postcondition, or a loop invariant about cost (functions whose total cost depends on callees
+// without cost contracts can still bound what their own loops add)
+func (ct *Contract) hasCostClause() bool {
+	if ct.hasCost() {
+		return true
+	}
+	for k, l := range ct.Loops {
+		if k < 0 {
+			continue
+		}
+		for _, inv := range l.Invariants {
+			if inv.Tag == "C20" {
+				return true
+			}
+		}
+	}
+	return false
+}
+
 func argLen(v Val, t types.Type) string {
 	switch u := underlying(t).(type) {
 	case *types.Basic:
@@ -1265,6 +1305,13 @@ func (fr *Frame) callCost(mode string, c *ssa.CallCommon, args []Val, res Val) (
 			q.costAssumed["regexp Find*Index: cost = end of the leftmost match, or the text length when nothing matches (RE2 matching is linear and stops at the leftmost match)"] = true
 			return fmt.Sprintf("(+ 1 (ite (= %s 0) %s (select %s (+ %s 1))))", res.C[0], lens[len(lens)-1], arr, res.C[0]), true
 		}
+	case "strings.Join":
+		// one pass over the result
+		if len(res.C) == 1 {
+			return "(+ 1 (slen " + res.C[0] + "))", true
+		}
+	case "(*strings.Builder).String", "(*strings.Builder).Len", "(*strings.Builder).Reset", "(*strings.Builder).Grow", "(*strings.Builder).WriteByte", "(*strings.Builder).WriteRune":
+		return "1", true // amortised: growth is geometric; String() does not copy
 	case "sort.Search", "sort.SearchInts", "sort.SearchStrings":
 		q.costAssumed["sort.Search*: at most 64 probes (binary search over an int-indexed range)"] = true
 		return "64", true
@@ -1352,4 +1399,25 @@ func (ct *Contract) mentionsPeak() bool {
 		}
 	}
 	return false
+}
+
+
+// loopFree: no back edge and no defer (size does not matter)
+func loopFree(fn *ssa.Function) bool {
+	if fn.Blocks == nil {
+		return false
+	}
+	for _, b := range fn.Blocks {
+		for _, s := range b.Succs {
+			if s.Dominates(b) {
+				return false
+			}
+		}
+		for _, ins := range b.Instrs {
+			if _, isDefer := ins.(*ssa.Defer); isDefer {
+				return false
+			}
+		}
+	}
+	return true
 }
